@@ -30,6 +30,9 @@ structure World where
 structure Ctx where
   slots : List SlotScope     -- innermost first: the content supplied on this component instance's own tag, then the includer's, and so on outwards
   chain : List Str          -- TemplateStack
+  /-- the named slots a PAGE hands to its LAYOUTS (`extractSlotsFromDOM`; the data key `__slotScope__`, visible at every depth of a layout's
+      evaluation): empty while the page itself and any file rendered without a layout is evaluated -/
+  inherited : SlotScope := []
   deriving Inhabited
 
 /-- the mutable part: the variable stack and the v-once `seen` set (shared along the include chain) -/
@@ -128,6 +131,33 @@ def slotStep (acc : SlotScope × List Node) (k : Node) : SlotScope × List Node 
 def extractSlotContent (kids : List Node) : SlotScope :=
   let r := kids.foldl slotStep ([], [])
   if !r.2.isEmpty then setSlot r.1 (S "default") { nodes := r.2, tmpl := none } else r.1
+
+/-- the marker of a page-level slot template: the FIRST attribute that is `#…` or `v-slot:…` decides (an empty name there registers nothing) -/
+def pageSlotName : List Attr → Str
+  | [] => []
+  | (k, _) :: r =>
+    if k.head? == some '#' then k.drop 1
+    else if hasPrefix k (S "v-slot:") then k.drop 7
+    else pageSlotName r
+
+-- `extractSlotsFromDOM(nodes)`: every `<template #name>` / `<template v-slot:name>` at ANY depth of the page's DOM, in document order (a
+-- later one of the same name replaces an earlier one); the content is the template's children, the template itself is kept for scoped props
+mutual
+def pageSlotsNode (acc : SlotScope) : Node → SlotScope
+  | .elem tag attrs kids =>
+    let acc1 := if tag == S "template" && pageSlotName attrs != [] then setSlot acc (pageSlotName attrs) { nodes := kids, tmpl := some (attrs, kids) } else acc
+    pageSlotsList acc1 kids
+  | _ => acc
+def pageSlotsList (acc : SlotScope) : List Node → SlotScope
+  | [] => acc
+  | n :: r => pageSlotsList (pageSlotsNode acc n) r
+end
+
+def extractPageSlots (dom : List Node) : SlotScope := pageSlotsList [] dom
+
+/-- `evalInclude`'s merge: an inherited slot fills a name the include tag did not supply itself -/
+def mergeInherited (own inherited : SlotScope) : SlotScope :=
+  inherited.foldl (fun (acc : SlotScope) (e : Str × SlotContent) => if (acc.lookup e.1).isSome then acc else acc ++ [e]) own
 
 /-- scoped variable name of a slot template: the value of the last `v-slot`, `v-slot:x` or `#x` attribute -/
 def scopedVarName (attrs : List Attr) : Str :=
@@ -560,7 +590,7 @@ def evalInclude (W : World) : Nat → Ctx → St → List Attr → List Node →
         match wrapperRequired dom1 (sk.envMap W.P.cfg) with
         | some missing => .err "required" (S "error in " ++ name ++ S " (included from " ++ formatChain ctx ++ S "): required attribute '" ++ missing ++ S "' not provided")
         | none =>
-          bindR (evalList W f { slots := extractSlotContent kids :: ctx.slots, chain := ctx.chain ++ [name] } { st with stack := sk } dom1)
+          bindR (evalList W f { ctx with slots := mergeInherited (extractSlotContent kids) ctx.inherited :: ctx.slots, chain := ctx.chain ++ [name] } { st with stack := sk } dom1)
             (fun res st1 => .ok (res, { st1 with stack := st1.stack.pop }))
 
 /-- `evalSlot` -/
@@ -569,6 +599,12 @@ def evalSlot (W : World) : Nat → Ctx → St → List Attr → List Node → R 
   | f + 1, ctx, st, attrs, kids =>
     let name := if getAttr attrs (S "name") == [] then S "default" else getAttr attrs (S "name")
     let props := slotProps W.P (st.stack.envMap W.P.cfg) attrs
+    -- no content supplied on the include tag(s): content the page handed to the layout is spliced in AS PARSED (a copy per use, not evaluated),
+    -- else the slot's own fallback children are evaluated
+    let unsupplied : R (List Node) :=
+      match ctx.inherited.lookup name with
+      | some content => .ok (content.nodes, st)
+      | none => if !kids.isEmpty then evalList W f ctx st kids else .ok ([], st)
     match ctx.slots with
     | sc :: outer =>
       (match sc.lookup name with
@@ -580,13 +616,17 @@ def evalSlot (W : World) : Nat → Ctx → St → List Attr → List Node → R 
             bindR (evalList W f { ctx with slots := outer } { st with stack := slotScopeStack st.stack (scopedVarName tk.1) props } tk.2)
               (fun res st1 => .ok (res, { st1 with stack := st1.stack.pop }))
           | none => evalList W f { ctx with slots := outer } st content.nodes)
-       | none => if !kids.isEmpty then evalList W f ctx st kids else .ok ([], st))
-    | [] => if !kids.isEmpty then evalList W f ctx st kids else .ok ([], st)
+       | none => unsupplied)
+    | [] => unsupplied
 
 end
 
 /-- `renderNodesWithContext` up to serialisation: component tags rewritten, then evaluated from a fresh context -/
 def evaluatePage (W : World) (fuel : Nat) (file : Str) (dom : List Node) (stack : Stack) : R (List Node) :=
   evalList W fuel { slots := [], chain := [file] } { stack := stack, seen := [] } (resolveTagsList W.comps dom)
+
+/-- the same for a LAYOUT of a page that handed it named slots -/
+def evaluateLayout (W : World) (fuel : Nat) (file : Str) (dom : List Node) (stack : Stack) (inherited : SlotScope) : R (List Node) :=
+  evalList W fuel { slots := [], chain := [file], inherited := inherited } { stack := stack, seen := [] } (resolveTagsList W.comps dom)
 
 end Vuego
